@@ -449,7 +449,8 @@ Definition post (h : heap) (ps : list ptr) (fp : list nat) (h' : heap) (ps' : li
   (forall p, In p ps -> In p ps') /\
   (forall a, aaddr ps' a -> aaddr ps a \/ length h <= a) /\
   (forall a, In a fp' -> In a fp \/ length h <= a) /\
-  alloc_wf ps'.
+  alloc_wf ps' /\
+  (forall a, length h <= a -> a < length h' -> aaddr ps' a).
 
 Section Sound.
 Variable cfg : config.
@@ -463,7 +464,7 @@ Definition sound_at (p : path) : Prop := forall h ps v j fp n jn,
   end.
 
 Lemma post_refl : forall h ps fp, alloc_wf ps -> post h ps fp h ps fp.
-Proof. intros. repeat split; auto. Qed.
+Proof. intros. repeat split; auto. intros. lia. Qed.
 
 Lemma post_intro : forall h ps fp h' ps' fp',
   length h <= length h' ->
@@ -471,12 +472,14 @@ Lemma post_intro : forall h ps fp h' ps' fp',
   (forall p, In p ps -> In p ps') ->
   (forall a, aaddr ps' a -> aaddr ps a \/ length h <= a) ->
   (forall a, In a fp' -> In a fp \/ length h <= a) ->
-  alloc_wf ps' -> post h ps fp h' ps' fp'.
+  alloc_wf ps' ->
+  (forall a, length h <= a -> a < length h' -> aaddr ps' a) -> post h ps fp h' ps' fp'.
 Proof. intros. unfold post. auto 10. Qed.
 
 Lemma sound_nil : sound_at [].
 Proof.
-  intros h ps v j fp n jn Hwf Hr ND Hn. simpl. exists h, ps, n, []. repeat split; auto; try constructor; try (intros; simpl in *; tauto).
+  intros h ps v j fp n jn Hwf Hr ND Hn. simpl. exists h, ps, n, []. split; auto. split; auto. split. constructor.
+  apply post_intro; auto; try (intros; simpl in *; tauto); intros; lia.
 Qed.
 
 (* ------------------------------------------------------------------------------------------------ *)
@@ -601,7 +604,7 @@ Lemma key_step : forall h ps jm v kvs fps fp k jx x h1 ps1 ju u fu,
     obj_write h1 (Some ps1) v k u = Some (h', Some ps', w) /\
     orep h' ps' (JObj (insert k ju jm)) w fp' /\ NoDup fp' /\ post h ps fp h' ps' fp'.
 Proof.
-  intros h ps jm v kvs fps fp k jx x h1 ps1 ju u fu Hwf Hnode ND Hx Hu NDu (P1 & P2 & P3 & P4 & P5 & P6).
+  intros h ps jm v kvs fps fp k jx x h1 ps1 ju u fu Hwf Hnode ND Hx Hu NDu (P1 & P2 & P3 & P4 & P5 & P6 & P7).
   set (fx := lookupf k kvs fps) in *.
   assert (Hfx : forall a, In a fx -> aaddr ps a /\ a < length h) by (eapply orep_fp; eauto).
   assert (Hfu : forall a, In a fu -> aaddr ps1 a /\ a < length h1) by (eapply orep_fp; eauto).
@@ -666,6 +669,7 @@ Proof.
       * intros a0 [<-|Hc]. { left; left; auto. } apply in_concat_insertf in Hc as [Hc|Hc].
         -- destruct (P5 _ Hc); auto. left. right. auto.
         -- left. right. auto.
+      * intros a0 Hge Hlt. apply P7; auto. unfold set_obj in Hlt. rewrite set_list_length in Hlt. auto.
   - (* nil or a map the allocator does not know: copied into a fresh map *)
     assert (Hfx0 : forall a, ~ In a fx). { intros a Hc. apply Hfxc in Hc. rewrite Hcc in Hc. destruct Hc. }
     assert (Hnalloc : allocated (Some ps1) v = false).
@@ -712,10 +716,15 @@ Proof.
         -- destruct (P5 _ Hc) as [H|H]; auto. destruct (Hfx0 _ H).
         -- rewrite Hcc in Hc. destruct Hc.
       * intros a0 off [H|H]; [discriminate | eapply P6; eauto].
+      * intros a0 Hge Hlt. unfold h' in Hlt. rewrite app_length in Hlt. simpl in Hlt.
+        destruct (Nat.eq_dec a0 b) as [->|Hne]. { right. left. auto. }
+        assert (aaddr ps1 a0) as [(off & Ho)|Ho] by (apply P7; auto; unfold b in Hne; lia).
+        -- left. exists off. right. auto.
+        -- right. right. auto.
 Qed.
 
 Lemma post_trans_child : forall h ps fx h1 ps1 fu, post h ps fx h1 ps1 fu -> alloc_wf ps1.
-Proof. intros. destruct H as (_ & _ & _ & _ & _ & H). auto. Qed.
+Proof. intros. destruct H as (_ & _ & _ & _ & _ & H & _). auto. Qed.
 
 Lemma sound_key : forall k r, sound_at r -> sound_at (PK k :: r).
 Proof.
@@ -748,14 +757,14 @@ Proof.
   - (* null *)
     destruct Hr as [-> ->]. cbn [lookup]. rewrite <- Hemp.
     destruct (is_empty jn).
-    + exists h, ps, HNull, []. repeat split; auto; try constructor; try (intros; simpl in *; tauto).
+    + exists h, ps, HNull, []. repeat split; auto; try constructor; try (intros; simpl in *; tauto); try (intros; lia).
     + assert (Hc0 : obj_node h ps [] HNull [] [] []) by (left; auto 6).
       pose proof (Hcont [] [] [] JNull HNull Hc0 (conj eq_refl eq_refl)) as Hc1.
       destruct (Path.update JNull r jn); exact Hc1.
   - destruct Hr as [-> _]. auto.
   - destruct Hr as [-> _]. auto.
   - destruct Hr as [-> _]. auto.
-  - destruct Hr as [-> ->]. exists h, ps, HEmpty, []. repeat split; auto; try constructor; try (intros; simpl in *; tauto).
+  - destruct Hr as [-> ->]. exists h, ps, HEmpty, []. repeat split; auto; try constructor; try (intros; simpl in *; tauto); try (intros; lia).
   - apply orep_arr in Hr as (a & off & len & cap & cells & fps & -> & _). auto.
   - (* object *)
     pose proof Hr as Hr0.
@@ -767,7 +776,7 @@ Proof.
     + pose proof (Hcont m kvs fps jx x Hnode Hl) as Hc1.
       destruct (Path.update jx r jn); exact Hc1.
     + rewrite <- Hemp. destruct (is_empty jn).
-      * exists h, ps, (HMap a), fp. repeat split; auto; try (intros; simpl in *; tauto).
+      * exists h, ps, (HMap a), fp. repeat split; auto; try (intros; simpl in *; tauto); try (intros; lia).
       * assert (Hx0 : orep h ps JNull HNull (lookupf k kvs fps)) by (rewrite lookupf_none by auto; split; auto).
         pose proof (Hcont m kvs fps JNull HNull Hnode Hx0) as Hc1.
         destruct (Path.update JNull r jn); exact Hc1.
@@ -934,7 +943,7 @@ Lemma fresh_step : forall h ps js (E : list hval) fps fp i h1 ps1 ju u fu c,
   orep h' (PArr b 0 :: ps1) (JArr (set_nth js i ju)) (HArr b 0 l' n') fp' /\ NoDup fp' /\
   post h ps fp h' (PArr b 0 :: ps1) fp'.
 Proof.
-  intros h ps js E fps fp i h1 ps1 ju u fu c Hrep NDc Hcl Hfx Hu NDu (P1 & P2 & P3 & P4 & P5 & P6).
+  intros h ps js E fps fp i h1 ps1 ju u fu c Hrep NDc Hcl Hfx Hu NDu (P1 & P2 & P3 & P4 & P5 & P6 & P7).
   intros l' n' b h' fp'.
   assert (Hfu : forall a, In a fu -> aaddr ps1 a /\ a < length h1) by (eapply orep_fp; eauto).
   assert (Hl' : length E <= l' /\ i < l').
@@ -983,6 +992,11 @@ Proof.
       * destruct (P5 _ Hc) as [H|H]; auto. left. apply nth_in_concat in H. apply Hcl in H. tauto.
       * left. apply Hcl in Hc. tauto.
     + intros a0 off [H|H]; [inversion H; auto | eapply P6; eauto].
+    + intros a0 Hge Hlt. unfold h' in Hlt. rewrite app_length in Hlt. simpl in Hlt.
+      destruct (Nat.eq_dec a0 b) as [->|Hne]. { left. exists 0. left. auto. }
+      assert (aaddr ps1 a0) as [(off & Ho)|Ho] by (apply P7; auto; unfold b in Hne; lia).
+      * left. exists off. right. auto.
+      * right. right. auto.
 Qed.
 
 Lemma arr_step : forall h ps js v E fps fp i jx x h1 ps1 ju u fu,
@@ -994,7 +1008,7 @@ Lemma arr_step : forall h ps js v E fps fp i jx x h1 ps1 ju u fu,
     orep h' ps' (JArr (set_nth js i ju)) w fp' /\ NoDup fp' /\ post h ps fp h' ps' fp'.
 Proof.
   intros h ps js v E fps fp i jx x h1 ps1 ju u fu Hwf Hnode ND Hx Hu NDu Hpost.
-  pose proof Hpost as (P1 & P2 & P3 & P4 & P5 & P6).
+  pose proof Hpost as (P1 & P2 & P3 & P4 & P5 & P6 & P7).
   set (fx := nth i fps []) in *.
   assert (Hfx : forall a, In a fx -> aaddr ps a /\ a < length h) by (eapply orep_fp; eauto).
   assert (Hfu : forall a, In a fu -> aaddr ps1 a /\ a < length h1) by (eapply orep_fp; eauto).
@@ -1106,6 +1120,7 @@ Proof.
       * intros a0 [<-|Hc]. { left; left; auto. } apply in_concat_set_nth in Hc as [Hc|Hc].
         -- destruct (P5 _ Hc); auto. left. right. apply nth_in_concat with (i := i). auto.
         -- left. right. auto.
+      * intros a0 Hge Hlt. apply P7; auto. unfold h' in Hlt. rewrite set_list_length in Hlt. auto.
 Qed.
 
 Lemma sound_idx : forall i r, sound_at r -> sound_at (PI i :: r).
@@ -1179,13 +1194,13 @@ Proof.
     destruct (reps3_length _ _ _ _ Hrep) as [L1 L2].
     set (j0 := clamp i (-1) (Z.of_nat (length js))).
     destruct (j0 <? 0)%Z eqn:E1.
-    { destruct (is_empty jn); auto. exists h, ps, v, fp. repeat split; auto; try (intros; simpl in *; tauto). }
+    { destruct (is_empty jn); auto. exists h, ps, v, fp. repeat split; auto; try (intros; simpl in *; tauto); try (intros; lia). }
     destruct (j0 <? Z.of_nat (length js))%Z eqn:E2.
     { assert (Hk : Z.to_nat j0 < length js) by lia.
       pose proof (Hcont js E fps (Z.to_nat j0) _ _ Hnode (reps3_nth _ JNull HNull [] _ _ _ _ Hrep Hk)) as Hc1.
       destruct (Path.update (nth (Z.to_nat j0) js JNull) r jn); exact Hc1. }
     destruct (is_empty jn).
-    { exists h, ps, v, fp. repeat split; auto; try (intros; simpl in *; tauto). }
+    { exists h, ps, v, fp. repeat split; auto; try (intros; simpl in *; tauto); try (intros; lia). }
     destruct (max_index <=? i)%Z; auto.
     assert (Hi : length js <= Z.to_nat i).
     { unfold j0, clamp in E1, E2. destruct (i <? 0)%Z eqn:Ei;
@@ -1199,7 +1214,7 @@ Proof.
   - destruct Hr as [-> _]. auto.
   - destruct Hr as [-> _]. auto.
   - destruct Hr as [-> _]. auto.
-  - destruct Hr as [-> ->]. exists h, ps, HEmpty, []. repeat split; auto; try constructor; try (intros; simpl in *; tauto).
+  - destruct Hr as [-> ->]. exists h, ps, HEmpty, []. repeat split; auto; try constructor; try (intros; simpl in *; tauto); try (intros; lia).
   - pose proof Hr as Hr0.
     apply orep_arr in Hr as (a & off & len & cap & cells & fps & -> & Hna & Hl & Hc & Hcase).
     destruct (reps3_length _ _ _ _ Hc) as [L1 L2].
